@@ -49,6 +49,7 @@ PROFILES = {
     "optimized": {"flags": ["-O"], "what": "python -O: assert statements and __debug__ blocks are compiled away"},
     "warnings-are-errors": {"flags": [], "what": "every warning attributed to a pytestarch module is an exception"},
     "dev-mode-elsewhere": {"flags": ["-X", "dev", "-B"], "cwd": "scratch", "what": "python -X dev -B started in an empty directory"},
+    "ascii-stdio": {"flags": [], "env": {"PYTHONIOENCODING": "ascii", "STAGE": "prod", "COLUMNS": "40", "NO_COLOR": "1", "TERM": "dumb"}, "what": "PYTHONIOENCODING=ascii (stdout / stderr cannot show non-ASCII names), a narrow dumb terminal, extra environment variables"},
 }
 
 
@@ -95,6 +96,10 @@ def run_shard_inprocess(pid: str, spec: dict) -> Acc:
         import warnings
 
         warnings.filterwarnings("error", module=r"pytestarch(\.|$)")
+        # ... and so is a DeprecationWarning that is attributed to the caller (this harness): the library announces its
+        # deprecated aliases itself and lets the call proceed, whatever filters the application has set
+        warnings.filterwarnings("error", category=DeprecationWarning, module=r"pta_verif(\.|$)")
+        os.environ["PTA_WARNINGS_ARE_ERRORS"] = "1"
     if profile == "optimized" and __debug__:
         acc.mark_inconclusive("profile 'optimized' requested but the interpreter runs with assertions enabled")
 
@@ -139,6 +144,7 @@ def _spawn(pid: str, spec: dict, workdir: str, idx: int, timeout: float):
     os.makedirs(env["PTA_SCRATCH"], exist_ok=True)
     prof = PROFILES.get(spec.get("_profile") or "", {})
     cmd = [sys.executable, "-X", "faulthandler"] + prof.get("flags", []) + ["-m", "pta_verif.runner", "--run-shard", pid, spec_path, out_path]
+    env.update(prof.get("env", {}))
     cwd = VERIF
     if prof.get("cwd") == "scratch":
         cwd = os.path.join(workdir, f"CWD{idx}")
